@@ -47,6 +47,9 @@ PARTIAL = [
     "a client whose Protocol declares a header-less stream method the server does not have (unknown method): the server "
     "cannot know an input stream follows; open finding C04:desync:unknown-method-headerless-stream",
     "dropping a StreamSession without close()/cancel()/__exit__ is not a call ending the property lists (DESIGN 7.3)",
+    "the model's on_log failure is an exception that none of the client's own handlers claims; a callback raising a class the "
+    "client's control flow also uses (transport-error classes, OSError / StopIteration / ArrowInvalid during a drain) is the open "
+    "finding C04:desync:on-log-raises-control-class:* — generated and reported as KNOWN-FINDING, outside the theorems",
 ]
 RULE = (
     "single-fault (thorough: also double-fault) histories of length <= 3 (thorough <= 5): every fault plan x every position x "
@@ -344,6 +347,12 @@ def split_ops(case: dict[str, Any], trace: list[list[Any]]) -> list[list[tuple[l
 
 def fault_key(case: dict[str, Any]) -> str:
     """Canonical class of a failing history: the first fault plan's family (position / filler independent)."""
+    # a history containing a callback of the open finding's classes is attributed to it, wherever it stands
+    for c in case["calls"]:
+        if "/onLogCls:" in c["plan"]:
+            cls = c["plan"].split("onLogCls:")[1].split(":")[0]
+            if cls in CONTROL_CLASSES:
+                return f"C04:desync:on-log-raises-control-class:{cls}"
     for c in case["calls"]:
         p = c["plan"]
         if not p.startswith("ok:") and p != "sentinel":
